@@ -169,3 +169,37 @@ Example C18_cross_connection_race_is_seen :
   nraces [GAcc (NT 0 TReader) NReg true; GAcc (NT 1 TReader) NReg false]
   = [{| gr_loc := NReg; gr_first := NT 0 TReader; gr_second := NT 1 TReader |}].
 Proof. vm_compute. reflexivity. Qed.
+
+(* ---------------------------------------------------------------- tie (i) by goroutine class (Model/Race.v Part 5)
+   A function the tables have never heard of (extract method) is fine when one class reaches it and that
+   class may make the access; a function with a site reached by two classes, an unknown `go` target, an
+   access the model does not perform, a capture that is not a known hand-over are not. *)
+Example C18_class_tie_examples :
+  let call a b := {| e_kind := KCall; e_from := nm a; e_to := nm b |} in
+  let spawn a b := {| e_kind := KSpawn; e_from := nm a; e_to := nm b |} in
+  let site f t fl w := {| s_fun := nm f; s_type := nm t; s_field := nm fl; s_write := w |} in
+  (* the writer's msgChan arm extracted into a new method *)
+  graph_problems [call "connection.write" "connection.onTerminalMsgEvent"]
+                 [site "connection.onTerminalMsgEvent" "connection" "filter" false] [] = [] /\
+  (* the reader calling curSeq: curSeq is then reached by reader and writer *)
+  List.length (graph_problems [call "connection.write" "connection.curSeq"; call "connection.reader" "connection.curSeq"]
+                              [site "connection.curSeq" "connection" "platformSerialNumber" true] []) = 1 /\
+  (* clear(c.handles) in the Once closure of stop(), which runs in the reader *)
+  List.length (graph_problems [call "connection.reader" "connection.stop"; call "connection.stop" "connection.stop$1"]
+                              [site "connection.stop$1" "connection" "handles" true] []) = 1 /\
+  (* a new goroutine *)
+  List.length (graph_problems [spawn "connection.reader" "connection.reader$2"] [] []) = 1 /\
+  (* a site in a function nobody is known to call *)
+  List.length (graph_problems [] [site "connection.helper" "connection" "key" false] []) = 1 /\
+  (* the timer closure reading the writer's record map *)
+  List.length (graph_problems [] [] [{| c_fun := nm "connection.onActiveEvent$1"; c_kind := CKRef;
+                                        c_type := nm "map[uint16]*ActiveMessage"; c_write := false; c_imm := true |}]) = 1 /\
+  (* ... while a value fixed before the closure exists, a channel whatever its name, the receiver are fine *)
+  graph_problems [] [] [{| c_fun := nm "connection.onActiveEvent$1"; c_kind := CKBasic; c_type := nm "time.Duration"; c_write := false; c_imm := true |};
+                        {| c_fun := nm "sessionManager.leave$1"; c_kind := CKChan; c_type := nm "chanstruct{}"; c_write := false; c_imm := true |};
+                        {| c_fun := nm "connection.onActiveEvent$1"; c_kind := CKRef; c_type := nm "*connection"; c_write := false; c_imm := true |}] = [] /\
+  (* the join closure keeping the first message instead of its own header copy *)
+  List.length (graph_problems [] [] [{| c_fun := nm "sessionManager.join$1"; c_kind := CKRef; c_type := nm "*Message"; c_write := false; c_imm := true |}]) = 1 /\
+  (* every root of the class tie is a row of the per-function table, with the same class *)
+  forallb (fun r => match lookup_fun String.eqb (fst r) fun_table with Some g => gclass_eqb g (snd r) | None => false end) root_table = true.
+Proof. vm_compute. repeat split. Qed.
